@@ -9,7 +9,10 @@
 (*   Sensitive     the postconditions are not vacuous: moving one marginal fee between fee and *)
 (*                 change, dropping the remainder of a split, shortening the required amount    *)
 (*                 of a refusal, or refusing a fundable request, is rejected.                   *)
-(* The Witness is also the hook for the exact spec -> code comparison (see notes/c07-report.md).*)
+(*   Promises      what the property text promises follows from the postconditions;            *)
+(*   AlgorithmMeetsPostconditions   the core of `single_pool_output_balance` transcribed --      *)
+(*                 `select_change_pool` (incl. the NU6.3 turnstile redirection) followed by the  *)
+(*                 Witness computation -- satisfies every postcondition on the whole domain.     *)
 EXTENDS Integers, Sequences, TLC
 
 CONSTANTS MaxIn,       \* the tuned input ranges over the boundary-adjacent values of 0..MaxIn
@@ -26,7 +29,8 @@ ICanon(v) == v = CanonV
 Cap == 20
 
 N == INSTANCE ChangeStrategy WITH NAdd <- IAdd, NSub <- ISub, NLe <- ILe, NOf <- IOf, NMulS <- IMul,
-                                  NCanon <- ICanon, MaxMoney <- 1000000, FoldCap <- Cap
+                                  NCanon <- ICanon, MaxMoney <- 1000000, FoldCap <- Cap,
+                                  KnownOrchardOutputs <- TRUE   \* the model of the pinned algorithm: finding open
 
 VARIABLES q, ws, done      \* ws: pool -> Witness, computed once per request
 vars == << q, ws, done >>
@@ -159,6 +163,9 @@ Sensitive ==
                      \* value is conserved exactly
                      /\ ~Ok(d, [w EXCEPT !.fee = @ + 1])
                      /\ (Len(w.change) > 0 => ~Ok(d, [w EXCEPT !.change[1].v = @ + 1]))
+                     \* the remainder of a split is not lost
+                     /\ (Len(w.change) > 1 /\ w.change[1].v > w.change[2].v =>
+                            ~Ok(d, [w EXCEPT !.change[1].v = w.change[2].v]))
                      \* the padding recorded for the builder is the padding that was paid for
                      /\ ~Ok(d, [w EXCEPT !.dummy[3] = @ + 1])
                 /\ w.k = "insufficient" =>
@@ -187,6 +194,21 @@ SelectPool(d) ==
 \* the Orchard turnstile included
 AlgorithmMeetsPostconditions ==
     Ready => LET d == N!Facts(q) IN Ok(d, ws[SelectPool(d)])
+
+\* the literal turnstile law of the property holds for every allowed balance outside the known class
+\* (requested Orchard output value after NU6.3), and inside the class the pinned algorithm does break it
+\* for some request of the domain (so the excuse is not vacuous: checking OrchardLawBrokenSomewhere as an
+\* invariant by hand makes TLC print such a request as the "counterexample")
+LiteralTurnstile ==
+    Ready =>
+      LET d == N!Facts(q)
+      IN  \A p \in d.cand :
+            LET w == ws[p]
+            IN  (w.k = "balance" /\ Ok(d, w) /\ ~N!InKnownOrchardClass(q, d)) =>
+                  N!OrchardNeverGains(q, d, N!Answer(q, d, w))
+OrchardLawBrokenSomewhere ==     \* NOT an invariant: a counterexample is the witness of the known finding
+    Ready => LET d == N!Facts(q) IN
+               LET w == ws[SelectPool(d)] IN w.k = "balance" => N!OrchardNeverGains(q, d, N!Answer(q, d, w))
 
 \* what the property promises about any allowed balance, derived from the postconditions
 Promises ==
